@@ -151,7 +151,12 @@ def rows_have(features, fs):
 
 
 def _rr(c):
-    return [e for e in c.events if e['kind'] == 'draw' and e['prim'] == 'random.randrange']
+    """uniform integer draws (random.randrange(n) and random.randint(a, b) are the same thing: a uniform index over lo..hi)"""
+    return [e for e in c.events if e['kind'] == 'draw' and e.get('uniform_int')]
+
+
+def _full_range(e, n):
+    return land(e['lo'] == 0, e['hi'] == n - 1)
 
 
 for variant, fst in (('', KeySet), ('#list', KeyList)):
@@ -160,10 +165,10 @@ for variant, fst in (('', KeySet), ('#list', KeyList)):
        params={'features': XList, 'feature_subset': fst},
        requires={'rows_have': lambda c: rows_have(c.a.features, c.a.feature_subset)},
        raises={'ValueError': {'when': lambda c: c.a.features.n == 0}},
-       ret=InstT, counts={'random.randrange': lambda c: 1},
+       ret=InstT, counts={'uniform_int': lambda c: 1},
        ghost_out={'row': (TInt, lambda c: _rr(c)[-1]['value'])},
        # one uniform row index over the whole storage view, every subset feature read from that row
-       body_ensures={'draw_full_range': lambda c: land(len(_rr(c)) == 1, _rr(c)[0]['arg'] == c.a.features.n)},
+       body_ensures={'draw_full_range': lambda c: land(len(_rr(c)) == 1, _full_range(_rr(c)[0], c.a.features.n))},
        ensures={
            'row_range': lambda c: land(0 <= c.gout.row, c.gout.row < c.a.features.n),
            'keys': lambda c: forall_key(lambda k: c.res.dom[k] == in_subset(c.a.feature_subset, k),
@@ -206,9 +211,8 @@ for variant, fst in (('', KeySet), ('#list', KeyList)):
            },
            body={
                # one row index per feature, drawn over the whole storage view
-               'draw_full_range': lambda l: land(len([e for e in l.body_events if e.get('prim') == 'random.randrange']) == 1,
-                                                 [e for e in l.body_events if e.get('prim') == 'random.randrange'][0]['arg']
-                                                 == l.a.features.n),
+               'draw_full_range': lambda l: land(len([e for e in l.body_events if e.get('uniform_int')]) == 1,
+                                                 _full_range([e for e in l.body_events if e.get('uniform_int')][0], l.a.features.n)),
            })])
 
     fn('Imputer._sample' + variant, F + 'marginal_imputer.py', src_cls='MarginalImputer', src_name='_sample', self_cls='Imputer',
